@@ -3,7 +3,8 @@
    load-allowed options, option defaults, re-supply list and shift / reduce tags are regenerated from the lark
    source (Gen/SerializeFields.v). *)
 From Coq Require Import ZArith List Bool String Ascii.
-From LV Require Import Ser.Value Gen.SerializeFields Ser.Serialize Ser.Relevant Ser.Serialize_proofs.
+From LV Require Import Ser.Value Gen.SerializeFields Ser.Serialize Ser.Relevant Ser.Serialize_proofs
+  Ser.SerializeDec Ser.SerializeDec_proofs.
 Import ListNotations.
 Local Open Scope string_scope.
 Local Open Scope list_scope.
@@ -112,6 +113,11 @@ Definition C11_standalone_full_statement (gen : lark_inst -> string) (run : stri
   forall g O i kw, build g O = Some i -> wf_inst i -> allowed_only kw ->
   run (gen i) kw = obind (lark_options_init (aupdate O kw)) (build g).
 
+(* the boolean check the harness evaluates on every exported instance implies the hypothesis of the theorems *)
+Theorem C11_wf_check_sound i : wf_inst_b i = true -> wf_inst i.
+Proof. exact (wf_inst_b_sound i). Qed.
+Print Assumptions C11_wf_check_sound.
+
 (* regression for the defect this development found (flags came back as a list; repaired by Pattern._deserialize):
    without re-freezing, the flag test of lexer._create_unless changes its answer; with it, it never does *)
 Theorem C11_flags_list_changes_unless_test :
@@ -151,13 +157,7 @@ Example C11_example :
               load dm [] <> Some ex_i /\ load dm [("keep_all_tokens", VBool true)] = None).
 Proof.
   split; [reflexivity|]. split; [|split; [reflexivity|]].
-  - split; [|split].
-    + intros a b Ha Hb. cbn in Ha, Hb.
-      repeat (destruct Ha as [<-|Ha]); try contradiction;
-        repeat (destruct Hb as [<-|Hb]); try contradiction; intros E;
-          first [reflexivity | (cbn in E; discriminate)].
-    + repeat constructor.
-    + discriminate.
+  - apply wf_inst_b_sound. vm_compute. reflexivity.
   - split; [repeat constructor; cbn; intuition discriminate|].
     split; [intros k Hk; cbn in Hk; cbn; intuition|].
     split.
